@@ -325,3 +325,12 @@ CHECKS["C13"]["text"] += (" map / filter with callbacks that clear / shorten / e
 CHECKS["C14"]["text"] += (" Conversions and abs of the non-finite doubles; bigint indices into a string (in range, at the length, +-2^64 and neighbours).")
 CHECKS["C16"]["text"] += (" The type x use matrix has 52 uses: 12 more put the value (plain, negated, not-ed, indexed, unwrapped) as a LATER argument of a call / later element of a list or map literal.")
 CHECKS["C17"]["text"] += (" Further kinds: MIN / -1 (int, bigint, op-assignment, element), abs of the minimum, radix outside 2 ..= 36 (both parsers, below and above), negative repetition count; loops nested in if arms in the history.")
+CHECKS["C02"]["text"] += (" Results of the built-in methods: typeof of the call vs the kind of the value for 563 in-domain cells of C14's tables (every numeric method on three receivers per kind, every string method on four"
+                          " receivers); `==` between optionals of types that have no `==`.")
+CHECKS["C03"]["text"] += (" A from-loop counter that reuses a variable of another kind (wider step, wider start, str / bool variable).")
+CHECKS["C06"]["text"] += (" The half-folded layer also has the negated wide literals -2147483648, -2147483649, -2^40.")
+CHECKS["C07"]["text"] += (" `modify` with a value equal to the held one but another entity (second closure of the same function, list with the same elements, empty list, object with equal fields, the same scalar).")
+CHECKS["C12"]["text"] += (" Present optionals in the BOXED form of eight built-ins (bool, str, int, float, byte, bigint payloads) compared with themselves, with another box, with plain values on either side, with nil, in a"
+                          " condition, through variables of optional type and through `or`.")
+CHECKS["C13"]["text"] += (" Boxed string elements / map values must print like plain ones.")
+CHECKS["C16"]["text"] += (" Unclosed towers (list, parenthesis, call, map, index; 3 .. 40 levels) followed by two values without a separator: a failing parse must not retry every enclosing level.")
